@@ -216,7 +216,7 @@ pub fn gen_source(r: &mut StdRng, o: &GenOpts, dir: &str, deps: &[String], is_de
                 } else if t < 94 || !err(r) {
                     ls.push(head("run", "true"));
                 } else {
-                    ls.push(head("run", if r.gen_bool(0.5) { "exit 3" } else { "false" }));
+                    ls.push(head("run", ["exit 3", "false", "printf 'partial'; kill -KILL $$", "kill -KILL $$"][r.gen_range(0..4)]));
                 }
                 if r.gen_bool(0.85) {
                     ls.push(["plain text", "use TAG1 here", "end.", "x TXTPP#inclde y", "TAG"][r.gen_range(0..5)].to_string());
